@@ -104,7 +104,11 @@ def find_lexicons(
     cur = connect().cursor()
     found = False
     for specifier in lexicon.split():
-        limit = '-1' if '*' in lexicon else '1'
+        # only a bare id is limited to one lexicon: the most recently added
+        if '*' in specifier or ':' in specifier:
+            order_limit = 'LIMIT -1'
+        else:
+            order_limit = 'ORDER BY rowid DESC LIMIT 1'
         if ':' not in specifier:
             specifier += ':*'
         query = f'''
@@ -113,7 +117,7 @@ def find_lexicons(
               FROM lexicons
              WHERE id || ":" || version GLOB :specifier
                AND (:language ISNULL OR language = :language)
-             LIMIT {limit}
+             {order_limit}
         '''
         params = {'specifier': specifier, 'language': lang}
         for row in cur.execute(query, params):
